@@ -35,6 +35,15 @@ pub struct SinkInner {
     pub ops: u64,
     pub fault_at: Option<(u64, FaultMode)>,
     pub faults_injected: u64,
+    /// every write call accepts at most this many bytes (a legal short write; callers must loop)
+    pub max_write: Option<usize>,
+    pub short_writes: u64,
+}
+
+thread_local! {
+    /// set by a case runner: sinks created by `write_wig` / `write_bed` on this thread accept at
+    /// most this many bytes per write call
+    pub static SINK_CAP: std::cell::Cell<Option<usize>> = std::cell::Cell::new(None);
 }
 
 #[derive(Clone, Default)]
@@ -64,6 +73,15 @@ impl Sink {
         let s = Sink::default();
         s.0.lock().unwrap().fault_at = Some((k, mode));
         s
+    }
+    /// plain sink, or a short-writing one when the case runner set SINK_CAP
+    pub fn for_case() -> Sink {
+        let s = Sink::default();
+        s.0.lock().unwrap().max_write = SINK_CAP.with(|c| c.get());
+        s
+    }
+    pub fn short_writes(&self) -> u64 {
+        self.0.lock().unwrap().short_writes
     }
     pub fn bytes(&self) -> Vec<u8> {
         self.0.lock().unwrap().buf.clone()
@@ -130,6 +148,13 @@ impl Write for Sink {
             }
             None => {}
         }
+        let data = match g.max_write {
+            Some(m) if data.len() > m => {
+                g.short_writes += 1;
+                &data[..m]
+            }
+            _ => data,
+        };
         if let Some(l) = &mut g.log {
             l.push(Op::Write(data.to_vec()));
         }
@@ -315,7 +340,7 @@ pub fn write_wig_into(c: &WigCase, sink: Sink) -> Result<(), String> {
 }
 
 pub fn write_wig(c: &WigCase) -> Result<Vec<u8>, String> {
-    let sink = Sink::new();
+    let sink = Sink::for_case();
     write_wig_into(c, sink.clone())?;
     Ok(sink.bytes())
 }
@@ -398,7 +423,7 @@ pub fn write_bed_into(c: &BedCase, sink: Sink) -> Result<(), String> {
 }
 
 pub fn write_bed(c: &BedCase) -> Result<Vec<u8>, String> {
-    let sink = Sink::new();
+    let sink = Sink::for_case();
     write_bed_into(c, sink.clone())?;
     Ok(sink.bytes())
 }
